@@ -2,11 +2,16 @@
     Only theorem statements here; each is closed by [exact] of a lemma proved in
     Proofs/SplitProofs.v, Proofs/FulfillProofs.v, Proofs/SettleProofs.v about the models
     Exchange/Split.v (Order.Split), Exchange/Fulfill.v (BuildSettlement) and Exchange/Settle.v
-    (SettleOrders / FillBids / FillAsks / closeSettlement over bank, hold and the order store). *)
+    (SettleOrders / FillBids / FillAsks / closeSettlement over bank, hold and the order store);
+    the second half (sums, transfers = reported amounts, refinement of the abstract specification
+    Exchange/SettleSpec.v, histories) is proved in Proofs/FulfillSteps.v, FulfillShape.v,
+    FulfillSums.v, SettleRefine.v, SettleFills.v, SettleHistory.v. *)
 From Coq Require Import ZArith List PArith.
 Import ListNotations.
-From PV Require Import Exchange.Arith Exchange.Split Exchange.Fulfill Exchange.Settle
-  Proofs.SplitProofs Proofs.FulfillProofs Proofs.SettleProofs.
+From PV Require Import Exchange.Arith Exchange.Split Exchange.Fulfill Exchange.Settle Exchange.SettleSpec
+  Proofs.SplitProofs Proofs.FulfillProofs Proofs.SettleProofs
+  Proofs.FulfillSteps Proofs.FulfillShape Proofs.FulfillSums
+  Proofs.SettleRefine Proofs.SettleFills Proofs.SettleHistory.
 Open Scope Z_scope.
 
 (** A settlement that BuildSettlement accepts: every filled ask order (fully or partially filled)
@@ -124,22 +129,218 @@ Theorem C01_fuel : forall asks bids lk,
 Proof. exact build_fuel. Qed.
 Print Assumptions C01_fuel.
 
-(* NOT PROVED (full statements kept visible):
+(** ** What the reported per-order records add up to
 
-   Theorem C01_price_conserved : forall asks bids lk s, build asks bids lk = Ok s ->
-       sum of fo_price over the filled asks = sum of fo_price over the filled bids.
-     Every [dist_price2] adds the same amount to one ask and one bid, so the statement is an
-     invariant of fp_inner / first_pass / consume / leftover_loop; the bookkeeping over the
-     zippers was not finished.  Per transfer the statement IS proved ([C01_build_sound], second
-     part: each bid's price transfer hands the sellers exactly what the buyer pays).  Also not
-     proved: that what a seller receives through those transfers equals the [fo_price] reported
-     for its ask orders (the price transfers are built from the bids' distributions only).  Both
-     are evaluated by the property checker on every observed settlement
-     ("prop:price_paid_ne_price_received", "prop:transfers_ne_agreed_movements").
+    Notation used below (all plain definitions, Exchange/SettleSpec.v and Proofs/FulfillSums.v):
+      [sumz g l]        sum of [g x] over the list [l];
+      [at_d d d' z]     [z] if [d = d'], else 0;
+      [idx_at i x d]    what the insertion-ordered address -> coins index [i] holds for address [x]
+                        in denom [d] (sum over the entries of [x]);
+      [s_full s ++ opt_list (s_partial s)]
+                        the filled orders BuildSettlement reports: for each, [fo_order] is the
+                        order (for the partially filled one: its filled part, so [o_assets] are the
+                        assets filled), [fo_price] the price applied, [fo_fees] the fees to pay. *)
 
-   Theorem C01_settle_refines_spec (DESIGN section 6): balances' = balances + spec_delta for the
-     ten-line specification.  Not proved in Coq; the same specification is the executable checker
-     [prop_step] in Corr/C01.v, evaluated on every step of every generated history. *)
+(** Sum of the price applied over the asks = sum of the prices of the bids, and sum of the assets
+    filled over the asks = sum of the assets of the bids; all in one asset denom and one price
+    denom.  Order ids must be distinct (the keeper guarantees it; see
+    [C01_sum_needs_distinct_ids] below for why it cannot be dropped). *)
+Theorem C01_sum_applied_eq_sum_bid_price : forall asks bids lk s,
+  build asks bids lk = Ok s -> NoDup (map o_id (asks ++ bids)) ->
+  let fills := s_full s ++ opt_list (s_partial s) in
+  sumz (fun f => if o_ask (fo_order f) then fo_price f else 0) fills =
+  sumz (fun f => if o_ask (fo_order f) then 0 else o_price (fo_order f)) fills /\
+  sumz (fun f => if o_ask (fo_order f) then o_assets (fo_order f) else 0) fills =
+  sumz (fun f => if o_ask (fo_order f) then 0 else o_assets (fo_order f)) fills /\
+  exists AD PD, Forall (fun f => o_ad (fo_order f) = AD /\ o_pd (fo_order f) = PD) fills.
+Proof. exact build_sums. Qed.
+Print Assumptions C01_sum_applied_eq_sum_bid_price.
+
+(** The hypothesis on the ids is needed: BuildSettlement recognises the partially filled order
+    by its id, so an ask carrying the id of the partially filled bid is dropped from the report. *)
+Theorem C01_sum_needs_distinct_ids :
+  exists asks bids s,
+    build asks bids (Ok None) = Ok s /\
+    let fills := s_full s ++ opt_list (s_partial s) in
+    sumz (fun f => if o_ask (fo_order f) then fo_price f else 0) fills <>
+    sumz (fun f => if o_ask (fo_order f) then 0 else o_price (fo_order f)) fills.
+Proof. exact build_sums_needs_distinct_ids. Qed.
+Print Assumptions C01_sum_needs_distinct_ids.
+
+(** Which orders are reported, and with which amounts: without a left-over order the fully filled
+    orders are exactly the input orders, unchanged and in order; with a left-over order [unf] the
+    last ask (or the last bid) [o] was split by Order.Split into the reported filled part and
+    [unf] ([C01_split_exact] gives the proportions), every other order is reported unchanged.
+    Every ask is paid at least its price and owes its flat fee plus (when the market has a
+    seller ratio) the ratio fee on the price APPLIED; every bid pays exactly its price and owes
+    exactly the fees it committed to. *)
+Theorem C01_reported_orders : forall asks bids lk s,
+  build asks bids lk = Ok s -> NoDup (map o_id (asks ++ bids)) ->
+  exists r, lk = Ok r /\
+    match s_left s with
+    | None => s_partial s = None /\ map fo_order (s_full s) = asks ++ bids
+    | Some unf =>
+        exists pre o p, s_partial s = Some p /\
+          split o (o_assets (fo_order p)) = Ok (fo_order p, unf) /\
+          ((asks = pre ++ [o] /\ map fo_order (s_full s) = pre ++ bids) \/
+           (bids = pre ++ [o] /\ map fo_order (s_full s) = asks ++ pre))
+    end /\
+    Forall (fun f =>
+      let o := fo_order f in
+      if o_ask o then
+        o_price o <= fo_price f /\
+        match r with
+        | None => fo_fees f = o_fees o
+        | Some rt => exists amt, ratio_fee rt (o_pd o) (fo_price f) = Ok (r_fd rt, amt) /\
+                                 fo_fees f = coins_add1 (o_fees o) (r_fd rt) amt
+        end
+      else fo_price f = o_price o /\ fo_fees f = o_fees o) (s_full s ++ opt_list (s_partial s)) /\
+    Forall (fun o => o_ask o = true) asks /\ Forall (fun o => o_ask o = false) bids.
+Proof. exact build_fills. Qed.
+Print Assumptions C01_reported_orders.
+
+(** ... where the ratio fee is the ceiling of price applied * ratio fee / ratio price. *)
+Theorem C01_ratio_fee_is_ceiling : forall rt pd p fd amt,
+  ratio_fee rt pd p = Ok (fd, amt) -> 0 < r_p rt -> 0 <= r_f rt -> 0 <= p ->
+  fd = r_fd rt /\ r_pd rt = pd /\ r_p rt * (amt - 1) < p * r_f rt <= r_p rt * amt.
+Proof. exact ratio_fee_ceiling. Qed.
+Print Assumptions C01_ratio_fee_is_ceiling.
+
+(** The built transfers pay exactly the reported amounts: summed over all transfers, address [x]
+    receives in denom [d] (outputs minus inputs) exactly what the reported filled orders of [x] say:
+    per ask -assets filled +price applied, per bid +assets -price (an account on several orders
+    or on both sides: the sum).  The link between the price transfers (built from the bids'
+    distributions only) and the asks' "price applied" is the invariant of allocate_price that
+    every elementary distribution step adds the same amount to the ask's price applied and, under
+    the ask owner's address, to the bid's distributions (Proofs/FulfillSteps.v).
+    And the fee inputs charge every address exactly the fees reported for its orders. *)
+Theorem C01_transfers_pay_reported_amounts : forall asks bids lk s,
+  build asks bids lk = Ok s -> NoDup (map o_id (asks ++ bids)) ->
+  let fills := s_full s ++ opt_list (s_partial s) in
+  (forall x d,
+     sumz (fun t => idx_at (t_out t) x d - idx_at (t_in t) x d) (s_transfers s) =
+     sumz (fun f => let o := fo_order f in
+                    if Pos.eqb x (o_owner o) then
+                      if o_ask o then at_d d (o_pd o) (fo_price f) - at_d d (o_ad o) (o_assets o)
+                      else at_d d (o_ad o) (o_assets o) - at_d d (o_pd o) (fo_price f)
+                    else 0) fills) /\
+  (Forall (fun o => sorted (o_fees o)) (asks ++ bids) ->
+   forall x d, idx_at (s_fee_inputs s) x d =
+               sumz (fun f => if Pos.eqb x (o_owner (fo_order f)) then amount_of (fo_fees f) d else 0) fills).
+Proof. exact build_transfers_reported. Qed.
+Print Assumptions C01_transfers_pay_reported_amounts.
+
+(** ** The keeper step refines the abstract specification Exchange/SettleSpec.v
+
+    [spec_delta cfg parties x d] (SettleSpec.v, a dozen lines): the sum over the parties that
+    are [x] of (gets - gives - fees), plus total fees minus the exchange's share if [x] is the
+    market account, plus the share if [x] is the fee collector; share = [exchange_split] of the
+    total fees of the denom = ceiling of total * split / 10000.  [party_of_fill]: seller gets
+    the price applied, gives the assets filled; buyer gets the assets, gives the price; each
+    pays the fees reported for its order.  [store_ok]: stored orders have sorted fee coins
+    (Order.Validate).  [reported_shape] / [fill_ok] are the two middle conjuncts of
+    [C01_reported_orders]. *)
+
+(** An accepted MarketSettle: for EVERY address and denom the balance changes by exactly
+    [spec_delta] of the reported filled orders (so nothing else moves); the hold shrinks by the
+    hold amounts of the filled (parts of the) orders; the order store loses the fully filled
+    orders and keeps what is left of the partially filled one; total supply is unchanged. *)
+Theorem C01_settle_refines_spec : forall cfg st askids bidids e st',
+  store_ok (st_orders st) ->
+  settle cfg st askids bidids e = Ok st' ->
+  exists asks bids r s,
+    get_orders (st_orders st) true askids None = Ok asks /\
+    get_orders (st_orders st) false bidids None = Ok bids /\
+    build asks bids (Ok r) = Ok s /\
+    reported_shape asks bids s /\ Forall (fill_ok r) (fills_of s) /\
+    (e = true <-> s_partial s <> None) /\
+    (forall x d, aget (st_bal st') x d =
+                 aget (st_bal st) x d + spec_delta cfg (map party_of_fill (fills_of s)) x d) /\
+    (forall x d, aget (st_hold st') x d = aget (st_hold st) x d - hold_released (fills_of s) x d) /\
+    (forall id, find_order (st_orders st') id = orders_after (st_orders st) (s_full s) (s_left s) id) /\
+    (forall d, total (st_bal st') d = total (st_bal st) d) /\
+    store_ok (st_orders st').
+Proof. exact settle_refine. Qed.
+Print Assumptions C01_settle_refines_spec.
+
+(** An accepted FillBids: the same specification, with the seller as one more party: it hands
+    over the total assets, receives the total price and pays its flat fee plus the ratio fees. *)
+Theorem C01_fill_bids_refines_spec : forall cfg st seller ids total_assets flat st',
+  store_ok (st_orders st) ->
+  fill_bids cfg st seller ids total_assets flat = Ok st' ->
+  exists bids rf,
+    get_orders (st_orders st) false ids (Some seller) = Ok bids /\
+    total_assets = sum_assets bids /\
+    ratio_fees_of cfg (sum_price bids) = Ok rf /\
+    let fills := map (fun o => {| fo_order := o; fo_price := o_price o; fo_fees := o_fees o |}) bids in
+    let me := {| p_addr := seller; p_gets := sum_price bids; p_gives := total_assets;
+                 p_fees := coins_add (match flat with Some (d, z) => coins_add1 [] d z | None => [] end) rf |} in
+    (forall x d, aget (st_bal st') x d =
+                 aget (st_bal st) x d + spec_delta cfg (me :: map party_of_fill fills) x d) /\
+    (forall x d, aget (st_hold st') x d = aget (st_hold st) x d - hold_released fills x d) /\
+    (forall id, find_order (st_orders st') id = orders_after (st_orders st) fills None id) /\
+    (forall d, total (st_bal st') d = total (st_bal st) d) /\
+    store_ok (st_orders st').
+Proof. exact fill_bids_refine. Qed.
+Print Assumptions C01_fill_bids_refines_spec.
+
+(** An accepted FillAsks: the buyer is the extra party: it receives the total assets, hands over
+    the total price and pays the settlement fees of its request; every ask is filled at exactly
+    its price and owes its flat fee plus the seller ratio fee on that price. *)
+Theorem C01_fill_asks_refines_spec : forall cfg st buyer ids total_price fees st',
+  store_ok (st_orders st) -> sorted fees ->
+  fill_asks cfg st buyer ids total_price fees = Ok st' ->
+  exists asks fills,
+    get_orders (st_orders st) true ids (Some buyer) = Ok asks /\
+    sum_price asks = [total_price] /\
+    Forall2 (fun o f => fo_order f = o /\ fo_price f = o_price o /\
+                        exists rfee, seller_ratio_fee cfg (o_pd o) (o_price o) = Ok rfee /\
+                                     fo_fees f = coins_add (o_fees o) rfee) asks fills /\
+    let me := {| p_addr := buyer; p_gets := sum_assets asks; p_gives := [total_price]; p_fees := fees |} in
+    (forall x d, aget (st_bal st') x d =
+                 aget (st_bal st) x d + spec_delta cfg (me :: map party_of_fill fills) x d) /\
+    (forall x d, aget (st_hold st') x d = aget (st_hold st) x d - hold_released fills x d) /\
+    (forall id, find_order (st_orders st') id = orders_after (st_orders st) fills None id) /\
+    (forall d, total (st_bal st') d = total (st_bal st) d) /\
+    store_ok (st_orders st').
+Proof. exact fill_asks_refine. Qed.
+Print Assumptions C01_fill_asks_refines_spec.
+
+(** Over EVERY history of creations, market settlements, FillBids and FillAsks whose requests
+    carry sorted fee coins ([op_ok], ValidateBasic), from any state whose stored orders do: after
+    any prefix, an accepted operation satisfies [step_spec] (Proofs/SettleHistory.v: by kind of
+    operation exactly the conclusions of the three theorems above; for a creation: balances and
+    other orders untouched, hold grows by the order's hold amount), a rejected one changes
+    nothing, and the per-denom sum of all balances is still what it was at the very start. *)
+Theorem C01_history : forall cfg st ops,
+  store_ok (st_orders st) -> Forall op_ok ops ->
+  forall pre o post, ops = pre ++ o :: post ->
+    let st1 := run cfg st pre in
+    let st2 := fst (step cfg st1 o) in
+    (snd (step cfg st1 o) = true -> step_spec cfg st1 o st2) /\
+    (snd (step cfg st1 o) = false -> st2 = st1) /\
+    (forall d, total (st_bal st2) d = total (st_bal st) d).
+Proof. exact history_refines. Qed.
+Print Assumptions C01_history.
+
+(* NOT PROVED (statements kept visible):
+
+   Theorem C01_history_holds : over every history starting with an empty order store and no holds,
+       forall x d, aget (st_hold (run cfg st ops)) x d =
+                   sumz (fun o => if Pos.eqb x (o_owner o) then amount_of (hold_amount o) d else 0)
+                        (st_orders (run cfg st ops)).
+     It does not follow cheaply from the step theorems: it additionally needs (a) distinct ids in the
+     store, i.e. a freshness condition on every accepted creation relative to the state reached so
+     far (the model takes the id from the implementation), (b) that an ask order carries at most
+     one fee coin (hold_amount and Order.Split's [&fees[0]] only look at the first), and (c)
+     hold_amount o = hold_amount filled + hold_amount left for Order.Split.  The step theorems above
+     state the hold change as "minus the hold amounts of the filled parts", which is what
+     closeSettlement releases; "hold = obligations of the open orders" as a state invariant is
+     property C02 (its own model Exchange/Holds.v and proofs).
+
+   The refinement is about the bank / hold semantics as transcribed in Exchange/Settle.v (tied to the
+   real modules by the correspondence run only); restricted denoms, sanctions, quarantine are
+   outside this model. *)
 
 (** Non-vacuity: two asks (the second one split), one bid paying more than asked, a 100:3 seller
     ratio.  10 + 15 assets are sold; the surplus of 20 is shared 8 : 12 by assets; 15 assets with
@@ -166,3 +367,32 @@ Example C01_witness :
   | _ => False
   end.
 Proof. vm_compute. reflexivity. Qed.
+
+(** Non-vacuity of the refinement: the orders above, created through the keeper model and settled
+    by the market (5 % default exchange split, 10 % for denom 3).  Seller 1 ends with 28 - 1,
+    seller 3 with 15 assets, 42 - 2 and 15 of its fee denom, buyer 2 with 25 assets and
+    100 - 70 - 5; the market keeps 8 - 1 and 15 - 2, the fee collector gets 1 and 2; what is left
+    of order 2 stays in the store with its hold. *)
+Definition ex_cfg : config :=
+  {| c_ratios := [ex_ratio]; c_splits := [(3%positive, 1000)]; c_default_split := 500;
+     c_seller_flat := []; c_buyer_flat := []; c_market := 9%positive; c_feecol := 10%positive |}.
+Definition ex_st0 : state :=
+  {| st_bal := [(1%positive, 1%positive, 10); (3%positive, 1%positive, 30); (3%positive, 3%positive, 30);
+                (2%positive, 2%positive, 100)];
+     st_hold := []; st_orders := [] |}.
+Definition ex_keys : list (addr * denom) :=
+  [(1,1); (1,2); (3,1); (3,2); (3,3); (2,1); (2,2); (9,2); (9,3); (10,2); (10,3)]%positive.
+
+Example C01_settle_witness :
+  let st1 := run ex_cfg ex_st0 (map (fun o => OCreate o true) (ex_asks ++ ex_bids)) in
+  let st2 := fst (step ex_cfg st1 (OSettle [1; 2]%positive [3]%positive true)) in
+  store_ok (st_orders st1) /\
+  snd (step ex_cfg st1 (OSettle [1; 2]%positive [3]%positive true)) = true /\
+  map (fun k => aget (st_bal st2) (fst k) (snd k)) ex_keys = [0; 27; 15; 40; 15; 25; 25; 7; 13; 1; 2] /\
+  map (fun k => aget (st_hold st1) (fst k) (snd k)) ex_keys = [10; 0; 30; 0; 30; 0; 75; 0; 0; 0; 0] /\
+  map (fun k => aget (st_hold st2) (fst k) (snd k)) ex_keys = [0; 0; 15; 0; 15; 0; 0; 0; 0; 0; 0] /\
+  map (fun o => (o_id o, o_assets o, o_price o, o_fees o)) (st_orders st2) = [(2%positive, 15, 30, [(3%positive, 15)])].
+Proof.
+  vm_compute. split; [|repeat split; reflexivity].
+  repeat constructor.
+Qed.
